@@ -621,7 +621,11 @@ func writeEvidence(w *World, res *checkResult, path string, seed int) {
 	if res.Lockset != nil {
 		cov["lock_discipline"] = res.Lockset
 	}
-	if res.Bounded != nil {
+	if res.Bounded != nil && boundedIsExtra[res.Prop] {
+		cov["bounded_standins"] = res.Bounded
+		cov["explanation"] = boundedExplanation[res.Prop]
+		assumptions = append(assumptions, "the clause covered by the bounded stand-in is not counted as proved")
+	} else if res.Bounded != nil {
 		level = "other"
 		cov["bounded_standins"] = res.Bounded
 		cov["explanation"] = boundedExplanation[res.Prop]
@@ -767,9 +771,13 @@ func (w *World) neverClosedObligations(p string) []*Obligation {
 	return out
 }
 
-var boundedTests = map[string]string{"C07": "TestC07", "C16": "TestC16"}
+var boundedTests = map[string]string{"C07": "TestC07", "C16": "TestC16", "C17": "TestC17"}
+
+// properties whose claim is a proof and whose bounded stand-in only covers a clause that is explicitly NOT claimed as proved
+var boundedIsExtra = map[string]bool{"C17": true}
 
 var boundedExplanation = map[string]string{
 	"C07": "Level other: the framing (parseMessage) is under contract, but the EEBUS transform itself (ship.JsonIntoEEBUSJson / ship.JsonFromEEBUSJson: encoding/json, go-ordered-json, textual replaces) is outside the verifier's reach and is covered only by a BOUNDED stand-in: the real functions run on a seeded sample of a finite document scope against an oracle written from the property text (member order, number literals as text, SHIP shape). Failing documents are classified by cause; causes listed in known-findings.txt are KNOWN-FINDINGs, a failing document showing no listed cause is a violation. Nothing here is counted as proved for the transform.",
+	"C17": "The proof covers the key-set step and the fields of a new entry. The address clause (union, no duplicates, no IPv6 link-local) is covered only by a BOUNDED stand-in, labelled bounded and not counted as proved: sequences of 1-5 add/update/remove events over two services with addresses in both encodings are run through the real processMdnsEntry and compared with a model written from the property text.",
 	"C16": "Level other: length bounds, TXT record structure and entry field mapping are proved deductively (obligations listed); the string algorithms (UTF-8 validity of the 32-byte cut, '=' in values, ';' in QR fields, category parsing, QR parse-back) are covered only by a BOUNDED stand-in on the real functions over strings built around the 32-byte boundary.",
 }
